@@ -173,6 +173,7 @@ def run_shard(ctx, desc):
             run_epochs(ctx, rng(ctx.seed, "C01e", desc["i"]), desc["n"], local=None)
         else:
             run_epochs(ctx, rng(ctx.seed, "C01l", LOCAL_TZS.index(desc["tz"])), desc["n"], local=desc["tz"])
+        ctx.reask()
     finally:
         ac.stop()
     for k, v in ac.counts.items():
@@ -185,6 +186,7 @@ def check_date_case(ctx, name, d, st, mode):
     """One boundary call + oracle.  Returns True if it took part as an on-path case."""
     import dateparser
 
+    ctx.remember(check_date_case, name, d, st, mode)
     f, p = F[name]
     s = f(d)
     exp = trunc(d, p)
@@ -275,6 +277,7 @@ def epoch_expected(n, suf, neg, zone_kind, zone):
 
 
 def check_epoch_case(ctx, n, suf, neg, zone_kind, zone, aware, local_tz=None):
+    ctx.remember(check_epoch_case, n, suf, neg, zone_kind, zone, aware, local_tz)
     import dateparser
 
     s = ("-" if neg else "") + str(n) + suf
